@@ -262,6 +262,13 @@ def gen_program(rnd, nfiles=None, opts=None, base=None, tries=30, charset="bk", 
             host.stmts[pos:pos] = [apm.simple(".even"), apm.include("inc8.mac"), apm.simple(".even")]
         if opts.get("insert") and rnd.random() < 0.7:
             blob = bytes(rnd.randrange(256) for _ in range(rnd.randrange(0, 301)))
+            if rnd.random() < 0.4:
+                # byte sequences that text-mode reading, decoding or stripping would damage
+                special = rnd.choice([b"\r\n", b"\r\n\r\n", b"\x1a", b"\x00\x00", b"\xff\xfe", b"\n", b" \t ", b"\xef\xbb\xbf"])
+                k = rnd.randrange(len(blob) + 1)
+                blob = (blob[:k] + special + blob[k:])[:300]
+                if rnd.random() < 0.3:
+                    blob = special + blob[:200] + special
             blobs["blob9.bin"] = blob
             host = rnd.choice(files)
             pos = rnd.randrange(len(host.stmts) + 1)
